@@ -233,7 +233,16 @@ func runC13(p *Prog, l *Ledger) {
 					bad = append(bad, fmt.Sprintf("%s: the wake-up case reports failure", p.At(s.sel)))
 				}
 				if !isWake && success {
-					bad = append(bad, fmt.Sprintf("%s: the %s case reports success: %s", p.At(s.sel), s.kinds[chosen], joinWitness(p.DescribePath(pa))))
+					// a give-up case may return what a drain helper found already delivered in the hand-off channel
+					drained := false
+					if call, ok := r0.(*ssa.Call); ok {
+						if c := p.CallOf(call); c.Static != nil && p.InModule(c.Static) && p.drainHelper(c.Static) == "" {
+							drained = true
+						}
+					}
+					if !drained {
+						bad = append(bad, fmt.Sprintf("%s: the %s case reports success: %s", p.At(s.sel), s.kinds[chosen], joinWitness(p.DescribePath(pa))))
+					}
 				}
 				if isWake && success && !isNilConst(r0) {
 					if _, isB := constBool(r0); !isB {
